@@ -176,7 +176,8 @@ def run_rdump(files, lay, cfg, mode, compiled, tmp):
             case["parts"].append([{k: v for k, v in r.items() if not k.startswith("_")} for r in recs])
         return case
     # stdout modes
-    argv += ["-m", mode]
+    argv += ["-m", mode] if mode != "list" else ["-l"]
+    case["listed"], case["processed"] = [], -1
     buf = io.BytesIO()
     saved = sys.stdout
     wrapper = io.TextIOWrapper(buf, encoding="utf-8", errors="surrogateescape", newline="", write_through=True)
@@ -214,6 +215,11 @@ def run_rdump(files, lay, cfg, mode, compiled, tmp):
                         continue
                 i = int(row[hdr.index("n")]) if hdr and "n" in hdr else 0
                 recs.append({"id": i, "d": "-", "fields": [], "src": "-", "cls": "-", "tsd": "-"})
+        elif mode == "list":
+            for m in re.finditer(r'RecordDescriptor\("([^"]+)", \[\n(.*?)\]\)', text, re.S):
+                case["listed"].append({"name": m.group(1), "fields": [n for n in re.findall(r'\("[^"]+", "([^"]+)"\)', m.group(2)) if not n.startswith("_")]})
+            pm = re.search(r"^Processed (\d+) records$", text, re.M)
+            case["processed"] = int(pm.group(1)) if pm else -1
         elif mode == "line":
             for blk in re.split(r"^--\[ RECORD \d+ \]--\n", text, flags=re.M)[1:]:
                 m = re.search(r"^\s*n = (\d+)$", blk, re.M)
@@ -242,8 +248,10 @@ def run(tier):
         modes = [("stream", True), ("stream", False)]
         if k % 3 == 0:
             modes += [(m, k % 2 == 0) for m in ("jsonlines", "csv", "line")]
+        if k % 3 == 1:
+            modes += [("list", k % 2 == 0)]
         for mode, compiled in modes:
-            c = run_rdump(files, lay, cfg if mode == "stream" else dict(cfg, split=0), mode, compiled, tmp)
+            c = run_rdump(files, lay, cfg if mode == "stream" else dict(cfg, split=0, **({"mts": False} if mode == "list" else {})), mode, compiled, tmp)
             cases.append(c)
             ctx.case(json.dumps([[s["kind"], s["keep"]] for s in lay]) + json.dumps(cfg, sort_keys=True) + mode + str(compiled))
     ctx.sample({"case": cases[5]})
@@ -257,11 +265,11 @@ def run(tier):
         if cid is None:
             raise MachineryError(f"cannot attribute counter-example: {v}")
         c = cases[cid - 1]
-        if v["inv"] == "Contract":
+        if v["inv"] in ("Contract", "ContractList"):
             if cid in seen:
                 continue
             seen.add(cid)
-            ctx.violation({"check": "Contract", "mode": c["mode"], "compiled": c["compiled"], "sel": c["cfg"]["sel"], "mts": c["cfg"]["mts"], "split": c["cfg"]["split"],
+            ctx.violation({"check": v["inv"], "mode": c["mode"], "compiled": c["compiled"], "sel": c["cfg"]["sel"], "mts": c["cfg"]["mts"], "split": c["cfg"]["split"],
                            "fields": ",".join(c["cfg"]["fields"]), "excl": ",".join(c["cfg"]["excl"]), "raised": c["raised"]},
                           {"case": c})
         else:
